@@ -242,6 +242,52 @@ Definition grpc_respond (c : cfg) (o : oracle) (sc : scenario) : gfinal :=
       end
   end.
 
+(** ** The entry points after the repair of finding C12-F1 (fixes/C12-F1.diff)
+
+    All three Finalize implementations look for a `WWW-Authenticate` header among
+    the headers collected for the upstream when a pipeline error is recorded: the
+    HTTP contexts put it on the response writer before returning the error (so it
+    also survives a recovery after a panicking WriteHeader, like a stale Location),
+    the Envoy context wraps the error into a ChallengeError, whose challenge the
+    gRPC translator adds to the DeniedHttpResponse.  [fixed = false] is the code as
+    it was. *)
+Definition challenge_of (sc : scenario) : option string :=
+  match sc with
+  | ScHandled m cause =>
+      match hd_ret (mech_exec m cause), hd_pipeline (mech_exec m cause) with
+      | None, Some _ =>
+          (fix find (l : list (string * string)) : option string :=
+             match l with
+             | [] => None
+             | (k, v) :: r => if String.eqb k "WWW-Authenticate" then Some v else find r
+             end) (hd_upstream (mech_exec m cause))
+      | _, _ => None
+      end
+  | _ => None
+  end.
+
+Definition with_www (w : option string) (h : hdrs) : hdrs :=
+  match w with
+  | Some v => {| h_location := h_location h; h_www := Some v; h_ctype := h_ctype h |}
+  | None => h
+  end.
+
+Definition http_respond_f (fixed : bool) (c : cfg) (o : oracle) (sc : scenario) : hfinal :=
+  match http_respond c o sc with
+  | HFinal s h b => HFinal s (if fixed then with_www (challenge_of sc) h else h) b
+  | x => x
+  end.
+
+Definition grpc_respond_f (fixed : bool) (c : cfg) (o : oracle) (sc : scenario) : gfinal :=
+  match grpc_respond c o sc with
+  | GDenied d =>
+      GDenied (if fixed
+               then {| g_code := g_code d; g_status := g_status d;
+                       g_hdrs := with_www (challenge_of sc) (g_hdrs d); g_body := g_body d |}
+               else d)
+  | x => x
+  end.
+
 (** ** equality tests for the evaluator *)
 Definition hdrs_eqb (a b : hdrs) : bool :=
   option_eqb String.eqb (h_location a) (h_location b) &&
